@@ -39,8 +39,44 @@ sys.exit(1 if bad else 0)
 '''
 
 
+REPLAY_PRIM = r'''
+# Replay for C17 (two primitive cdata of the same type) against the real cffi build:
+# a OP b must be what the Python values they convert to give.
+import sys, json, struct, operator, cffi
+case = json.loads(%r)
+ffi = cffi.FFI()
+kind, size, op = case['kind'], case['size'], case['op']
+tn = {'signed': {1: 'signed char', 2: 'short', 4: 'int', 8: 'long long'},
+      'unsigned': {1: 'unsigned char', 2: 'unsigned short', 4: 'unsigned int', 8: 'unsigned long long'},
+      'bool': {1: '_Bool'}, 'float': {4: 'float', 8: 'double'}, 'char': {1: 'char'}}[kind][size]
+def mk(raw):
+    b = raw.to_bytes(size, 'little')
+    if kind == 'float':
+        return ffi.cast(tn, struct.unpack('<f' if size == 4 else '<d', b)[0])
+    if kind == 'char':
+        return ffi.cast(tn, b)
+    return ffi.cast(tn, int.from_bytes(b, 'little', signed=(kind == 'signed')))
+if kind == 'bool' and (case['raw_v'] > 1 or case['raw_w'] > 1):
+    sys.exit(2)          # no public way to build such a cdata
+a, b = mk(case['raw_v']), mk(case['raw_w'])
+pa, pb = ffi.new(tn + '*', a)[0], ffi.new(tn + '*', b)[0]
+f = [operator.lt, operator.le, operator.eq, operator.ne, operator.gt, operator.ge][op]
+if f(a, b) != f(pa, pb):
+    print('VIOLATED: %%r %%s %%r gives %%s, the Python values %%r, %%r give %%s' %% (a, f.__name__, b, f(a, b), pa, pb, f(pa, pb)))
+    sys.exit(1)
+sys.exit(0)
+'''
+
+
 def make_replay(chk):
     def replay(case):
+        if 'raw_w' in case and 'kind' in case:
+            body = REPLAY_PRIM % json.dumps(case)
+            path = chk.write_replay('prim-%s%d-%s' % (case['kind'], case['size'], OPS.get(case.get('op'), 'x')), body)
+            rc, out = common.run_replay(path)
+            if rc == 2:
+                return None, None
+            return common.replay_verdict(rc, out), path
         if 'A' not in case:
             return None, None
         body = REPLAY % json.dumps(case)
@@ -133,8 +169,9 @@ def worker(args):
         addr = z3.BitVec('addr_' + name, 64)
         return pystubs.new_cdata(ex, L, ct, addr, tp=cdata_tp), addr, flags
 
-    def prim_cdata(ex, name, kind, size):
-        ct = pystubs.new_ctype(ex, L, size, prim_flags(F, kind, size))
+    def prim_cdata(ex, name, kind, size, ct=None):
+        ct = ct or pystubs.new_ctype(ex, L, size, prim_flags(F, kind, size))
+        ex.ghost['last_ct'] = ct
         data = ex.mem.alloc(size, 'prim data ' + name, 'input')
         raw = z3.BitVec('raw_' + name, 8 * size)
         ex.mem.store(data.base, raw, size)
@@ -196,17 +233,25 @@ def worker(args):
     elif what[0] == 'prim':
         op, kind, size, wkind = what[1:]
 
-        def h(ex):
+        def h(ex, wkind=wkind):
             py = pystubs.PyEnv(ex)
             v, raw = prim_cdata(ex, 'v', kind, size)
             inputs = {'raw_v': raw}
+            kwr = {}
             if wkind == 'pyobj':
                 w = py.new_opaque('object')
                 raww = None
+            elif wkind == 'same':
+                # both operands are cdata of the very same ctype object
+                w, raww = prim_cdata(ex, 'w', kind, size, ct=ex.ghost['last_ct'])
+                inputs['raw_w'] = raww
+                kwr = dict(replay=replay, extra_case={'kind': kind, 'size': size, 'op': op})
             else:
                 w, raww = prim_cdata(ex, 'w', wkind[0], wkind[1])
                 inputs['raw_w'] = raww
-            name = 'prim-%s-%s%d-vs-%s' % (OPS[op], kind, size, wkind if wkind == 'pyobj' else '%s%d' % wkind)
+            name = 'prim-%s-%s%d-vs-%s' % (OPS[op], kind, size, wkind if isinstance(wkind, str) else '%s%d' % wkind)
+            if wkind == 'same':
+                wkind = (kind, size)
             r = ex.concretize(ex.call('cdata_richcompare', [v, w, op]), 64, 8, 'result pointer')
             w_bool = wkind != 'pyobj' and wkind[0] == 'bool'
             if (kind == 'bool' or w_bool) and py.exc == 'PyExc_ValueError':
@@ -221,7 +266,26 @@ def worker(args):
                 chk.sample({'case': name, 'bytes_of_v': hex(hutil.mval(m, raw))})
             g = ex.ghost.get('rich')
             ok = g is not None and py.exc is None
-            hutil.discharge(chk, ex, name + ':delegates-to-PyObject_RichCompare', ok, inputs=inputs)
+            T_, F_ = ex.gaddr('_Py_TrueStruct'), ex.gaddr('_Py_FalseStruct')
+            if kwr and g is None and py.exc is None and r in (T_, F_):
+                # answered without PyObject_RichCompare: then the answer itself must be what the two Python values give
+                if kind == 'float':
+                    srt = z3.Float32() if size == 4 else z3.Float64()
+                    x, y = z3.fpBVToFP(raw, srt), z3.fpBVToFP(raww, srt)
+                    spec = {0: z3.fpLT(x, y), 1: z3.fpLEQ(x, y), 2: z3.fpEQ(x, y), 3: z3.Not(z3.fpEQ(x, y)),
+                            4: z3.fpGT(x, y), 5: z3.fpGEQ(x, y)}[op]
+                elif kind == 'signed':
+                    spec = {0: raw < raww, 1: raw <= raww, 2: raw == raww, 3: raw != raww, 4: raw > raww, 5: raw >= raww}[op]
+                else:
+                    spec = {0: z3.ULT(raw, raww), 1: z3.ULE(raw, raww), 2: raw == raww, 3: raw != raww,
+                            4: z3.UGT(raw, raww), 5: z3.UGE(raw, raww)}[op]
+                    if kind == 'bool':      # a byte other than 0/1 has no Python value: an answer is wrong
+                        spec = z3.And(spec, z3.ULE(raw, 1), z3.ULE(raww, 1))
+                hutil.discharge(chk, ex, name + ':direct-answer==comparison-of-python-values',
+                                spec if r == T_ else z3.Not(spec) if kind != 'bool' else z3.And(z3.Not({2: raw == raww, 3: raw != raww}.get(op, spec)), z3.ULE(raw, 1), z3.ULE(raww, 1)),
+                                inputs=inputs, **kwr)
+                return
+            hutil.discharge(chk, ex, name + ':delegates-to-PyObject_RichCompare', ok, inputs=inputs, **kwr)
             if not ok:
                 return
             a, b, gop, res = g
@@ -281,13 +345,15 @@ def run(chk):
         for op in ((2, 4) if quick else range(6)):
             cases.append(P + (('prim', op, kind, size, 'pyobj'),))
         cases.append(P + (('prim', 2, kind, size, ('signed', 4)),))
+        for op in ((2, 3) if quick else range(6)):
+            cases.append(P + (('prim', op, kind, size, 'same'),))
         if not quick:
             for wk in PRIMS:
                 cases.append(P + (('prim', 0, kind, size, wk),))
     chk.bounds = {'pointer-like cdata': 'any ct_flags without primitive bits and with a pointer/array/struct/union/'
                   'function bit, any two 64-bit addresses, all 6 operators',
                   'primitive cdata': [list(p) for p in PRIMS], 'primitive bytes': 'all values',
-                  'operators for primitive cases': 'EQ, GT (quick) / all (thorough)'}
+                  'operators for primitive cases': 'EQ, GT (quick) / all (thorough); two cdata of the very same ctype: EQ, NE (quick) / all (thorough)'}
     chk.outside = ['long double and complex cdata (no Python value to convert to for long double)',
                    'wchar_t/char16_t/char32_t primitives (conversion decided under C15)',
                    'what PyObject_RichCompare/PyObject_Hash themselves compute (CPython)']
